@@ -20,14 +20,44 @@ RULE = ("simple loop-free graphs: every atlas graph with <= 6 vertices (sampled)
         "max_size in {0,2,3,4,5}; schedules: shuffle -> identity, reverse, 3 seeds, and every relative order of the largest cliques when there are "
         "<= 5 of them; in half of the cases the same graph object is then rewired in place (degree-preserving double edge swaps) and covered again; non-trivial = >= 2 overlapping cliques of size >= 3; distinct = SHA-1 of (graph, max_size)")
 ASSUMPTIONS = ["vertex ids are non-negative ints (label parsing splits on '-')", "ids need not be dense; member order inside a label is free"]
-HEADLINE = ["runs", "graphs", "edges_labelled", "cliques_checked_for_maximality", "top_order_enumerations", "limit_cases", "shuffle_hook_seen", "isolated_vertex_graphs", "recover_after_in_place_rewiring"]
-REQUIRED = {t: {"runs": 500, "cliques_checked_for_maximality": 2000, "top_order_enumerations": 20, "limit_cases": 50, "shuffle_hook_seen": 100, "recover_after_in_place_rewiring": 30}
+HEADLINE = ["runs", "graphs", "edges_labelled", "cliques_checked_for_maximality", "top_order_enumerations", "limit_cases", "shuffle_hook_seen", "isolated_vertex_graphs", "recover_after_in_place_rewiring", "large_disconnected_graphs"]
+REQUIRED = {t: {"runs": 500, "cliques_checked_for_maximality": 2000, "top_order_enumerations": 20, "limit_cases": 50, "shuffle_hook_seen": 100, "recover_after_in_place_rewiring": 30, "large_disconnected_graphs": 3}
             for t in ("quick", "thorough")}
 
 
 def gen_cases(tier, seed):
     n = 400 if tier == "quick" else 24000
-    return [{"seed": seed * 100237 + i} for i in range(n)]
+    cases = [{"seed": seed * 100237 + i} for i in range(n)]
+    # scale: disconnected graphs with thousands of vertices (thorough: beyond 2**16), many components that each hold edges
+    for i in range(4 if tier == "quick" else 40):
+        cases.append({"seed": seed * 100237 + 900000 + i, "large": (2100, 6000) if tier == "quick" or i % 4 else (66000, 72000), "_cost": 30})
+    return cases
+
+
+def large_graph(rng, lo, hi):
+    target = rng.randint(lo, hi)
+    g = nx.Graph()
+    nxt = 0
+    while nxt < target:
+        k = rng.choice(["path", "tri", "k4", "gnp", "star", "single", "diamond"])
+        if k == "path":
+            h = nx.path_graph(rng.randint(2, 6))
+        elif k == "tri":
+            h = nx.complete_graph(3)
+        elif k == "k4":
+            h = nx.complete_graph(rng.choice([4, 5]))
+        elif k == "gnp":
+            h = nx.gnp_random_graph(rng.randint(4, 9), 0.5, seed=rng.randrange(1 << 30))
+        elif k == "star":
+            h = nx.star_graph(rng.randint(2, 5))
+        elif k == "diamond":
+            h = nx.Graph([(0, 1), (0, 2), (1, 2), (1, 3), (2, 3)])
+        else:
+            h = nx.empty_graph(1)
+        g.add_nodes_from(nxt + v for v in h.nodes())
+        g.add_edges_from((nxt + a, nxt + b) for a, b in h.edges())
+        nxt += h.number_of_nodes()
+    return "union of %d small components, %d vertices" % (nx.number_connected_components(g), g.number_of_nodes()), g
 
 
 def parse(label):
@@ -88,6 +118,26 @@ def run_case(case):
     import gcmpy
     res = Result()
     rng = random.Random(case["seed"])
+    if case.get("large"):
+        d, g0 = large_graph(rng, *case["large"])
+        res.count("large_disconnected_graphs")
+        res.seen("large_graph_orders_in_thousands", g0.number_of_nodes() // 1000)
+        max_size = rng.choice([0, 0, 3])
+        cliques = list(nx.enumerate_all_cliques(g0))
+        base = {"graph": d, "edges": sorted(tuple(sorted(e)) for e in list(g0.edges())[:40]), "nodes": g0.number_of_nodes(), "max_size": max_size}
+        for val in (1, 2):
+            g = g0.copy()
+            with installed(RandomTap(seed=val, keep_log=False), "mpcc"):
+                out = sut("MPCC", gcmpy.MPCC, g, max_size)
+            res.count("runs")
+            if out is not g and not isinstance(out, nx.Graph):
+                res.violate("did-not-return-a-graph", got=repr(out)[:100], ctx=base); break
+            if not check_cover(res, g0, out, max_size, cliques, dict(base, schedule=["seed", val])):
+                break
+        res.nontrivial = True
+        res.sample = base
+        res.digest = digest([d, case["seed"]])
+        return res
     d, g0 = random_graph(rng, nmax=14, allow_isolates=rng.random() < 0.15)
     if rng.random() < 0.15:
         # vertices without any edge are part of an input graph too (they take part in no clique of size >= 2)
